@@ -8,7 +8,7 @@ fn tuple_expr(arity: usize, lat: bool, par: bool) -> String {
     let mut cols: Vec<String> = (0..arity).map(|i| format!("t[{}]", i)).collect();
     if lat { cols[arity - 1] = format!("vfn::VLat::dec(t[{}])", arity - 1); }
     let tup = if arity == 1 { format!("({},)", cols[0]) } else { format!("({})", cols.join(", ")) };
-    if lat && par { format!("::std::sync::RwLock::new({})", tup) } else { tup }
+    if lat && par { format!("::ascent::verif::RwLock::new({})", tup) } else { tup }
 }
 
 fn dump_expr(field: &str, arity: usize, lat: bool, par: bool) -> String {
@@ -103,7 +103,7 @@ pub fn variant_module(name: &str, v: &Variant) -> String {
                 let mut cols: Vec<String> = vec!["i32".into(); r.arity];
                 if let Some(t) = &r.lat { cols[r.arity - 1] = crate::print::lat_rust_ty(t).into(); }
                 let tup = if r.arity == 1 { format!("({},)", cols[0]) } else { format!("({})", cols.join(", ")) };
-                let vty = if par && r.lat.is_some() { format!("::ascent::boxcar::Vec<::std::sync::RwLock<{}>>", tup) } else if par { format!("::ascent::boxcar::Vec<{}>", tup) } else { format!("Vec<{}>", tup) };
+                let vty = if par && r.lat.is_some() { format!("::ascent::boxcar::Vec<::ascent::verif::RwLock<{}>>", tup) } else if par { format!("::ascent::boxcar::Vec<{}>", tup) } else { format!("Vec<{}>", tup) };
                 writeln!(s, "         let init_{}: {} = {};", r.name, vty, coll).unwrap();
             }
             writeln!(s, "         let res = ::ascent::{}! {{", mac).unwrap();
